@@ -394,7 +394,7 @@ class Aggregate:
                 self.cases.setdefault(case.get("id"), case)
         counters = self.counters()
         if harness:
-            self.inconclusive.append("%d harness errors, first: %s" % (len(harness), harness[0][1][-800:]))
+            self.inconclusive.append("%d harness errors, first (case %s): %s" % (len(harness), harness[0][0], harness[0][1][-2500:]))
         req = mod.required(self.tier) if hasattr(mod, "required") and not replay_mode else {}
         for k, v in req.items():
             if counters.get(k, 0) < v:
